@@ -84,7 +84,7 @@ func VerifC11_FilterOutputCompleteAtReturn() {
 	verifOwnPanics()
 	verifHexModel()
 	mode := verifParam("schedule", 0, 2) // lazy, round-robin, all schedules with <= 1 preemption
-	verifSchedule(mode, 1)
+	verifSchedule(mode, 1+verifTier()) // thorough: up to two preemptions
 	in := c11Input()
 	w := &c11Writer{}
 	// the optional logs on and off: their writers are fast, the output
